@@ -22,13 +22,16 @@ def _stress(args):
     which = ["api" if i % 3 == 2 else ("py" if (i % 2 == 0 or st["c"] is None) else "c") for i in range(nthreads)]
     import mwparserfromhell
 
-    def parse_one(w, text):
+    # every thread has its own options too: an option is per-call state like everything else
+    skips = [i % 4 in (1, 2) for i in range(nthreads)]
+
+    def parse_one(w, text, skip=False):
         if w == "api":      # the public entry point: a new Parser per call, default tokenizer
-            code = mwparserfromhell.parse(text)
+            code = mwparserfromhell.parse(text, skip_style_tags=skip)
             return str(code) + "|" + code.get_tree()
-        toks = st[w]().tokenize(text)
-        return str(Builder().build(toks)) + "|" + repr(tokharness.canon(st[w]().tokenize(text)))
-    expected = [[parse_one(which[i], t) for t in inputs[i]] for i in range(nthreads)]
+        toks = st[w]().tokenize(text, 0, skip)
+        return str(Builder().build(toks)) + "|" + repr(tokharness.canon(st[w]().tokenize(text, 0, skip)))
+    expected = [[parse_one(which[i], t, skips[i]) for t in inputs[i]] for i in range(nthreads)]
     results = [[None] * per_thread for _ in range(nthreads)]
     inside = [0]
     overlap = [0]
@@ -42,7 +45,7 @@ def _stress(args):
                 if inside[0] >= 2:
                     overlap[0] += 1
             try:
-                results[i][j] = parse_one(which[i], t)
+                results[i][j] = parse_one(which[i], t, skips[i])
             except Exception as e:  # noqa: BLE001
                 errors.append((i, j, repr(e)))
             with lock:
